@@ -541,9 +541,33 @@ func safe(b []byte) bool {
 // ---------------------------------------------------------------- cases
 
 type uaCase struct {
-	class  string
-	stream []byte
-	raw    bool // UW on a raw buffer instead of UA on a stream
+	class    string
+	stream   []byte
+	raw      bool // UW on a raw buffer instead of UA on a stream
+	implOnly bool // judged by the oracle only, not sent to the Lean model (huge containers: the model's byte lists are too slow)
+}
+
+// hugeUA: element counts of the huge containers of tie (a) (set by the tier); around and above 32767.
+var hugeUA = []int{32767, 32768}
+
+// hugeCases: list<byte>, set<bool>, map<byte,byte> of n one-byte elements as ONE unknown field.
+func hugeCases() []uaCase {
+	var out []uaCase
+	for i, n := range hugeUA {
+		hdr := func(t byte, inner ...byte) []byte {
+			b := append([]byte{t, 0, 9}, inner...)
+			return append(b, byte(n>>24), byte(n>>16), byte(n>>8), byte(n))
+		}
+		l := append(hdr(15, 3), make([]byte, n)...)
+		out = append(out, uaCase{class: fmt.Sprintf("huge.list.%d", n), stream: append(l, 0), implOnly: true})
+		if i == len(hugeUA)-1 || n == 32768 {
+			s := append(hdr(14, 2), make([]byte, n)...)
+			m := append(hdr(13, 3, 3), make([]byte, 2*n)...)
+			out = append(out, uaCase{class: fmt.Sprintf("huge.set.%d", n), stream: append(s, 0), implOnly: true},
+				uaCase{class: fmt.Sprintf("huge.map.%d", n), stream: append(m, 0), implOnly: true})
+		}
+	}
+	return out
 }
 
 // the fixed catalogue: minimal inputs, identical for every seed (stable keys for findings)
@@ -771,6 +795,9 @@ func runPkg(repo, work string, r *vl.Rng, n int, out *vl.Out) error {
 		return err
 	}
 	cases := append([]uaCase{}, catalogue...)
+	huge := hugeCases()
+	cases = append(cases, huge...)
+	n += len(huge)
 	skipped := 0
 	for len(cases) < n {
 		var c uaCase
@@ -808,7 +835,11 @@ func runPkg(repo, work string, r *vl.Rng, n int, out *vl.Out) error {
 	shrunk := 0
 	for i, c := range cases {
 		ans := answers[i]
-		out.Case(lines[i], ans, true)
+		if c.implOnly {
+			out.Count("a.implonly")
+		} else {
+			out.Case(lines[i], ans, true)
+		}
 		out.Count("a.class." + c.class)
 		if strings.Contains(ans, "panic") && !c.raw {
 			out.Fail(vl.OracleFail{Key: lines[i], What: "tie (a): panic in Fields.Append/Write on a protocol stream",
